@@ -161,6 +161,7 @@ prchunk_fill(prch_ctx_t ctx)
 
 	/* initial work, reset the line counters et al */
 	ctx->tot_lno = 0;
+	ctx->cur_lno = 0;
 	/* we just memcpy() the left over stuff to the front and restart
 	 * from there, someone left us a note in __ctx with the left
 	 * over offset */
